@@ -1000,6 +1000,26 @@ class PrinterLang:
     def language_of(self, classes):
         return self.print_node(NodeV(classes, None), top=True)
 
+    def slot_order(self, c, order):
+        """marker mode: the first (state, printed-first, printed-after) where a slot the parser reads earlier is printed after one
+        it reads later, or None; ``order`` is the parser's fill order of the slots of class c"""
+        h = self.registry.get(c)
+        if h is None:
+            raise Unsupported("no print method for %s" % c)
+        rank = {sl: i for i, sl in enumerate(order)}
+        self.marker_mode = True
+        try:
+            n_states = 0
+            for st in self.shapes.states(c):
+                n_states += 1
+                lang = self.class_state_lang(c, st, h)
+                v = order_violation(lang, rank)
+                if v is not None:
+                    return n_states, (st, v[0], v[1])
+            return n_states, None
+        finally:
+            self.marker_mode = False
+
     def slot_presence(self, c):
         """marker mode: [(state, slot, missing witness or None)] for every present content slot of every state of class c;
         a child read from slot s prints as the single symbol SLOT(s), descriptions are enabled."""
@@ -1037,6 +1057,35 @@ class PrinterLang:
 
 def strip_none(r):
     return r
+
+
+def order_violation(r, rank):
+    """(earlier-printed slot, later-printed slot) such that some string of L(r) emits SLOT(b) and afterwards SLOT(a) although
+    rank[a] < rank[b] (a is read first by the parser), or None.  Reachability on the NFA x (highest rank emitted so far)."""
+    n = rx.NFA()
+    s, e = n.build(r)
+    start = [(q, -1, None) for q in n.closure([s])]
+    seen = {(q, hi) for q, hi, _ in start}
+    queue = start
+    while queue:
+        nxt = []
+        for q, hi, who in queue:
+            for atoms, _p, y in n.tr[q]:
+                outs = set()
+                for a in atoms:
+                    if isinstance(a, tuple) and a and a[0] == "SLOT" and a[1] in rank:
+                        if rank[a[1]] < hi:
+                            return who, a[1]
+                        outs.add((max(hi, rank[a[1]]), a[1] if rank[a[1]] > hi else who))
+                    else:
+                        outs.add((hi, who))
+                for h2, w2 in outs:
+                    for z in n.closure([y]):
+                        if (z, h2) not in seen:
+                            seen.add((z, h2))
+                            nxt.append((z, h2, w2))
+        queue = nxt
+    return None
 
 
 def only_ws(r):
